@@ -368,6 +368,7 @@ def fake_state_engine():
     se.notify = lambda item, id, redelivered=False: se.notified.append((item, id, redelivered))
     se.heartbeat = lambda n: None
     se.machines = {}
+    se.executions = {}
     se.asl_store = types.SimpleNamespace(get_cached_view=lambda arn: se.machines.get(arn))
     se.update_execution_history = lambda *a, **k: se.history.append(a[2])
     return se
